@@ -134,6 +134,9 @@ func (s *Heatmap) WriteHeader(colNames ...string) (colCount int) {
 		}
 
 		sb.WriteString(underlineHeaderChar(name, 0))
+		if nameLen == 0 { // an empty column key still occupies its column
+			nameLen = 1
+		}
 		i += nameLen
 	}
 
